@@ -254,7 +254,7 @@ def _decode_arglist(lexer, variables):
                     variables[arg] = _decode_proplist(lexer)
                 arglist.append(arg)
             else:
-                carg = arg
+                carg = _unescape(arg)
             if not lexer.accept_type(COMMA):
                 break
     lexer.expect_type(RPAREN)
@@ -363,7 +363,7 @@ def _encode_rel(ep, semi, varprops, lnk, delim):
             for d in synopsis
             if d.name in ep.args]
     if ep.carg is not None:
-        args.append('"{}"'.format(ep.carg))
+        args.append('"{}"'.format(_escape(ep.carg)))
     return '{label}:{pred}{lnk}({args})'.format(
         label=ep.label,
         pred=ep.predicate,
@@ -377,3 +377,22 @@ def _encode_hcons(hc):
 
 def _encode_icons(ic):
     return '{} {} {}'.format(ic.left, ic.relation, ic.right)
+
+
+# Character Escaping (as in SimpleMRS)
+
+def _escape(s: str) -> str:
+    return s.replace('\\', '\\\\').replace('"', '\\"')
+
+
+def _unescape(s: str) -> str:
+    cs = []
+    i = 0
+    while i < len(s):
+        if s[i] == '\\' and (i + 1) < len(s):
+            cs.append(s[i+1])
+            i += 2
+        else:
+            cs.append(s[i])
+            i += 1
+    return "".join(cs)
